@@ -210,7 +210,7 @@ def cli_check(st, pat):
             case = {"pattern": pat.text, "old": ov, "new": v, "cli": "update"}
             if o.exit == 0:
                 st.validated += 1
-                body = world.read_tree(".")["a.txt"].decode()
+                body = world.read_tree(".")["a.txt"].decode("utf-8", "replace")
                 m = re.fullmatch(r"ver=(.*);\npep=(.*);\n", body)
                 written = m.group(2) if m else None
                 st.observe((pat.text, ov, v, written))
@@ -285,7 +285,7 @@ def cli_check(st, pat):
                 st.outcomes["cli-increment-refused"] += 1
                 continue
             st.validated += 1
-            body = world.read_tree(".")["a.txt"].decode()
+            body = world.read_tree(".")["a.txt"].decode("utf-8", "replace")
             m = re.fullmatch(r"ver=(.*);\npep=(.*);\n", body)
             case = {"pattern": pat.text, "old": ov, "flags": list(flags), "cli": "update-increment"}
             st.observe((pat.text, ov, flags, body))
